@@ -116,7 +116,19 @@ func userPropOps() []sop {
 			Call:  func(q any) { reflect.ValueOf(q).MethodByName("AddUserProp").Call([]reflect.Value{reflect.ValueOf(k), reflect.ValueOf(v)}) },
 			Model: func(m KV) { m["UserProperties"] = appendList(m["UserProperties"], fmt.Sprintf("[%q %q]", k, v)) }}
 	}
-	return []sop{mk("k", "v", true), mk("k", "w", true), mk("kk", "", false)}
+	spread := sop{Name: "AddUserProp(kv...) from a caller's slice that is overwritten afterwards",
+		Call: func(q any) {
+			kv := []string{"ka", "va", "kb", "vb"}
+			args := make([]reflect.Value, len(kv))
+			m := reflect.ValueOf(q).MethodByName("AddUserProp")
+			_ = args
+			m.CallSlice([]reflect.Value{reflect.ValueOf(kv)})
+			kv[0], kv[1], kv[2], kv[3] = "x", "y", "z", "w"
+		},
+		Model: func(m KV) {
+			m["UserProperties"] = appendList(appendList(m["UserProperties"], fmt.Sprintf("[%q %q]", "ka", "va")), fmt.Sprintf("[%q %q]", "kb", "vb"))
+		}}
+	return []sop{mk("k", "v", true), mk("k", "w", true), mk("kk", "", false), spread}
 }
 
 func b(v ...byte) []byte { return v }
@@ -139,11 +151,14 @@ func fl(b bool) string { return fmt.Sprint(b) }
 func alphabet(name string) []sop {
 	var ops []sop
 	add := func(o ...sop) { ops = append(ops, o...) }
-	u16 := []any{uint16(0), uint16(258), uint16(65535)}
-	u32 := []any{uint32(0), uint32(16909060), uint32(4294967295)}
+	// small values, and for every kind one ordinary mid-range value (a
+	// 40-byte string outgrows any small inline storage a packet may keep)
+	u16 := []any{uint16(0), uint16(258), uint16(65535), uint16(300)}
+	u32 := []any{uint32(0), uint32(16909060), uint32(4294967295), uint32(70000)}
 	bools := []any{false, true}
-	strs := []any{"", "a", "bb"}
-	bins := []any{[]byte(nil), b(1), b(2, 3)}
+	long := "a-value-of-forty-bytes/with+some#content"
+	strs := []any{"", "a", "bb", long}
+	bins := []any{[]byte(nil), b(1), b(2, 3), []byte(long)}
 	rcs := []any{mq.ReasonCode(0), mq.ReasonCode(0x80), mq.ReasonCode(0x10)}
 	switch name {
 	case "Connect":
@@ -158,9 +173,9 @@ func alphabet(name string) []sop {
 		add(setOps("SetTopicAliasMax", "TopicAliasMax", 1, u16...)...)
 		add(setOps("SetRequestResponseInfo", "RequestResponseInfo", 1, bools...)...)
 		add(setOps("SetRequestProblemInfo", "RequestProblemInfo", 1, bools...)...)
-		add(setOps("SetAuthMethod", "AuthMethod", 1, "", "m")...)
+		add(setOps("SetAuthMethod", "AuthMethod", 1, "", "m", long)...)
 		add(setOps("SetAuthData", "AuthData", 1, bins...)...)
-		add(withModel(setOps("SetUsername", "Username", 1, "", "u", "uu"), func(i int, m KV) { m["HasFlag(7)"] = fl(i != 0) })...)
+		add(withModel(setOps("SetUsername", "Username", 1, "", "u", "uu", long), func(i int, m KV) { m["HasFlag(7)"] = fl(i != 0) })...)
 		add(withModel(setOps("SetPassword", "Password", 1, bins...), func(i int, m KV) { m["HasFlag(6)"] = fl(i != 0) })...)
 		add(setOps("SetWillDelayInterval", "WillDelayInterval", 1, uint32(0), uint32(5))...)
 		add(withModel(reuseOps("SetPassword", "Password", "SetPassword", "Password"), func(i int, m KV) { m["HasFlag(6)"] = "true" })...)
@@ -176,6 +191,39 @@ func alphabet(name string) []sop {
 					m["HasFlag(3)"] = fl(w.QoS() == 1)
 					m["HasFlag(4)"] = fl(w.QoS() == 2)
 					m["HasFlag(5)"] = fl(w.Retain())
+				}})
+		}
+		// the same *Publish handed to SetWill twice with its QoS and retain
+		// changed in between: the flags mirror the message as it is passed
+		// the second time
+		for i, tr := range []struct {
+			q0, q1 uint8
+			r0, r1 bool
+		}{{1, 2, false, true}, {2, 0, true, false}, {0, 1, true, true}} {
+			tr := tr
+			mkWill := func() *mq.Publish {
+				w := mq.Pub(tr.q0, "same/will", "pw")
+				w.SetRetain(tr.r0)
+				return w
+			}
+			final := mkWill()
+			final.SetQoS(tr.q1)
+			final.SetRetain(tr.r1)
+			add(sop{Name: fmt.Sprintf("SetWill(w);w.SetQoS(%d);w.SetRetain(%v);SetWill(w) #%d", tr.q1, tr.r1, i),
+				Call: func(q any) {
+					w := mkWill()
+					c := q.(*mq.Connect)
+					c.SetWill(w)
+					w.SetQoS(tr.q1)
+					w.SetRetain(tr.r1)
+					c.SetWill(w)
+				},
+				Model: func(m KV) {
+					m["Will"] = render(reflect.ValueOf(final))
+					m["HasFlag(2)"] = "true"
+					m["HasFlag(3)"] = fl(tr.q1 == 1)
+					m["HasFlag(4)"] = fl(tr.q1 == 2)
+					m["HasFlag(5)"] = fl(tr.r1)
 				}})
 		}
 	case "ConnAck":
@@ -195,7 +243,7 @@ func alphabet(name string) []sop {
 		add(setOps("SetServerKeepAlive", "ServerKeepAlive", 1, u16...)...)
 		add(setOps("SetResponseInformation", "ResponseInformation", 1, strs...)...)
 		add(setOps("SetServerReference", "ServerReference", 1, strs...)...)
-		add(setOps("SetAuthMethod", "AuthMethod", 1, "", "m")...)
+		add(setOps("SetAuthMethod", "AuthMethod", 1, "", "m", long)...)
 		add(setOps("SetAuthData", "AuthData", 1, bins...)...)
 		add(userPropOps()...)
 	case "Publish":
@@ -247,6 +295,17 @@ func alphabet(name string) []sop {
 			Model: func(m KV) {
 				m["Filters"] = appendList(appendList(m["Filters"], `filter("sensors/+/temperature",1)`), `filter("a/b",2)`)
 			}})
+		add(sop{Name: "AddFilters(fs...) from a caller's slice that is overwritten afterwards",
+			Call: func(q any) {
+				mine := []mq.TopicFilter{mq.NewTopicFilter("sensors/+/temperature", 1), mq.NewTopicFilter("sensors/+/humidity", 2)}
+				q.(*mq.Subscribe).AddFilters(mine...)
+				mine[0] = mq.NewTopicFilter("actuators/+/set", 0)
+				mine[1].SetOptions(0)
+				mine[1].SetFilter("x")
+			},
+			Model: func(m KV) {
+				m["Filters"] = appendList(appendList(m["Filters"], `filter("sensors/+/temperature",1)`), `filter("sensors/+/humidity",2)`)
+			}})
 		add(sop{Name: "AddFilters(two at once)",
 			Call:  func(q any) { q.(*mq.Subscribe).AddFilters(fs[1], fs[0]) },
 			Model: func(m KV) { m["Filters"] = appendList(appendList(m["Filters"], render(reflect.ValueOf(fs[1]))), render(reflect.ValueOf(fs[0]))) }})
@@ -292,7 +351,7 @@ func alphabet(name string) []sop {
 		}
 	case "Auth":
 		add(setOps("SetReasonCode", "ReasonCode", 1, mq.ReasonCode(0), mq.ReasonCode(0x18), mq.ReasonCode(0x19))...)
-		add(setOps("SetAuthMethod", "AuthMethod", 1, "", "m")...)
+		add(setOps("SetAuthMethod", "AuthMethod", 1, "", "m", long)...)
 		add(setOps("SetAuthData", "AuthData", 1, bins...)...)
 		add(setOps("SetReasonString", "ReasonString", 1, strs...)...)
 		add(userPropOps()...)
